@@ -95,6 +95,8 @@ def expectation(doc, ep, vec):
     params = declared_params(o, item)
     exp = {"method": method.upper(), "query": {}, "headers": {}, "cookies": {}, "absent_query": [], "absent_headers": [], "absent_cookies": [], "path": path, "hostile_path": False}
     by_loc = {"query": ep.query_parameters, "header": ep.header_parameters, "cookie": ep.cookie_parameters, "path": ep.path_parameters}
+    # every parameter the DOCUMENT declares for this operation (operation level + path-item level) must be an argument of the function
+    exp["missing_params"] = [f"{n} in {l}" for (n, l), pd in params.items() if "schema" in pd and not any(q.name == n for q in by_loc.get(l, []))]
     for loc, plist in by_loc.items():
         for p in plist:
             v = vec.get(str(p.python_name))
@@ -166,6 +168,8 @@ def expectation(doc, ep, vec):
 def check_request(exp, call):
     """list of discrepancies between the captured request and the document's expectation"""
     bad = []
+    for mp in exp.get("missing_params", []):
+        bad.append(f"declared parameter {mp} is not an argument of the generated function (never sent)")
     reqs = call.get("requests", [])
     if len(reqs) != 1:
         return [f"{len(reqs)} requests sent (expected exactly one)"]
